@@ -729,7 +729,15 @@ func (l *loopState) checkForDeadlocks(retries int, wg *sync.WaitGroup) {
 
 // resolveExpressions takes an inputData value potentially containing expressions and a dataModel containing data
 // for expressions and resolves the expressions contained in inputData using reflection.
-func (l *loopState) resolveExpressions(inputData any, dataModel any) (any, error) {
+func (l *loopState) resolveExpressions(inputData any, dataModel any) (result any, err error) {
+	// Evaluating an expression can panic on run-time faults in the data, such as an integer division by
+	// zero. That must end the run with an error like any other evaluation failure, not crash the process.
+	defer func() {
+		if r := recover(); r != nil {
+			result = nil
+			err = fmt.Errorf("run-time fault while evaluating expressions (%v)", r)
+		}
+	}()
 	switch expr := inputData.(type) {
 	case expressions.Expression:
 		l.logger.Debugf("Evaluating expression %s...", expr.String())
